@@ -623,7 +623,7 @@ def run_cli(argv, files, want_dump=False, stale_dump=None):
             for root, _, fs in os.walk(outd):
                 for fn in fs:
                     p = os.path.join(root, fn)
-                    outs[os.path.relpath(p, outd)] = open(p, newline="").read()
+                    outs[os.path.relpath(p, outd)] = open(p, newline="", encoding="utf-8", errors="surrogateescape").read()
         dumptext = open(dump).read() if want_dump and os.path.exists(dump) else None
         return status, outs, dumptext
     finally:
